@@ -19,11 +19,11 @@ func init() {
 		Prop:   "C18",
 		Run:    run,
 		Replay: replay,
-		Rule: "E1 over (schema x data tree): schemas from a grammar with nested non-presence and presence containers, mandatory leaves, leaves with defaults, lists with min/max-elements and unique sets over direct and descendant leaves, leaf-lists with min/max, choices (mandatory, default case, choice nested in a case), no must/when/leafref; data trees: every combination of the instantiable nodes (lists with 0-3 entries, leaf-lists with 0-3 values, unique leaves over a 2-value alphabet, default leaves explicit or absent) up to the node bound. " +
+		Rule: "E1 over (schema x data tree): (1) every schema forest up to the node bound generated from the grammar leaf(plain|mandatory|default) / leaf-list(min,max variants) / container(np|presence) / list(min,max variants; one unique, one unique over two leaves, two unique statements; over direct and descendant leaves) / choice(plain|mandatory|default case) with shorthand and explicit cases, siblings as multisets, x every data tree up to the data bound; (2) 9 hand-written deeper schemas from a grammar with nested non-presence and presence containers, mandatory leaves, leaves with defaults, lists with min/max-elements and unique sets over direct and descendant leaves, leaf-lists with min/max, choices (mandatory, default case, choice nested in a case), no must/when/leafref; data trees: every combination of the instantiable nodes (lists with 0-3 entries, leaf-lists with 0-3 values, unique leaves over a 2-value alphabet, default leaves explicit or absent) up to the node bound. " +
 			"schema.ValidateSchema's error verdict and error count are compared with a reference that lists every complaint (missing mandatory node looking through non-presence containers and active cases, min/max violation, unique violation); the walk of schema.AddDefaults is compared with the reference decoration, explicit data must be unchanged and decorating the decorated tree must change nothing. Non-trivial = the tree has >= 2 nodes or the reference has a complaint or adds a default.",
 		Bound: map[string]string{
-			"quick":    "9 schemas x all data trees of <= 7 nodes",
-			"thorough": "9 schemas x all data trees of <= 9 nodes",
+			"quick":    "all generated schemas of <= 3 nodes x all data trees of <= 5 nodes; 9 hand-written schemas x all data trees of <= 7 nodes",
+			"thorough": "all generated schemas of <= 4 nodes x all data trees of <= 6 nodes; 9 hand-written schemas x all data trees of <= 9 nodes",
 		},
 		Assumptions: []string{"schema-side must/when evaluation is outside this harness (contexts built by NewCtxFromMach have no path stacks)"},
 	})
@@ -59,8 +59,43 @@ func schemas() [][]*S {
 }
 
 type rec struct {
-	Schema int `json:"schema"`
-	Data   *D  `json:"data"`
+	Schema int  `json:"schema"` // index into schemas(); -1: Gen holds a generated schema
+	Gen    []*S `json:"gen,omitempty"`
+	Data   *D   `json:"data"`
+}
+
+func (r rec) kids() []*S {
+	if r.Schema < 0 {
+		return r.Gen
+	}
+	return schemas()[r.Schema]
+}
+
+func (r rec) label() string {
+	if r.Schema < 0 {
+		return "generated"
+	}
+	return fmt.Sprintf("schema%d", r.Schema)
+}
+
+func compileKids(kids []*S) (schema.ModelSet, string) {
+	var b strings.Builder
+	b.WriteString("module a { namespace \"urn:a\"; prefix a;")
+	for _, k := range kids {
+		b.WriteString(" " + k.yang())
+	}
+	b.WriteString(" }")
+	r := gen.Compile(map[string]string{"a": b.String()}, gen.Options{})
+	if !r.OK() {
+		return nil, fmt.Sprintf("%s: %v %v\n%s", r.Verdict(), r.Err, r.Panic, b.String())
+	}
+	return r.MS, ""
+}
+
+var genModel struct {
+	key string
+	ms  schema.ModelSet
+	msg string
 }
 
 var compiled = map[int]schema.ModelSet{}
@@ -102,15 +137,28 @@ func walkData(n datanode.DataNode, path string, out *[]string, depth int) {
 }
 
 func check(r rec) (vs []engine.Violation, nComplaints int, addsDefaults bool) {
-	ms, msg := modelFor(r.Schema)
+	var ms schema.ModelSet
+	var msg string
+	wit := fmt.Sprintf("schema %d data %s", r.Schema, r.Data)
+	if r.Schema < 0 {
+		text := schemaText(r.Gen)
+		if genModel.key != text {
+			genModel.key = text
+			genModel.ms, genModel.msg = compileKids(r.Gen)
+		}
+		ms, msg = genModel.ms, genModel.msg
+		wit = fmt.Sprintf("schema {%s} data %s", text, r.Data)
+	} else {
+		ms, msg = modelFor(r.Schema)
+	}
 	mk := func(key, detail string) {
-		vs = append(vs, engine.Violation{Key: key, Witness: fmt.Sprintf("schema %d data %s", r.Schema, r.Data), Detail: detail, Harness: "data", Replay: engine.JSON(r)})
+		vs = append(vs, engine.Violation{Key: key, Witness: wit, Detail: detail, Harness: "data", Replay: engine.JSON(r)})
 	}
 	if ms == nil {
 		mk("schema-does-not-compile", msg)
 		return
 	}
-	kids := schemas()[r.Schema]
+	kids := r.kids()
 	// ---- validation
 	var want []string
 	validateRef(kids, r.Data, "", &want)
@@ -124,13 +172,13 @@ func check(r rec) (vs []engine.Violation, nComplaints int, addsDefaults bool) {
 	}()
 	switch {
 	case p != nil:
-		mk(fmt.Sprintf("panic-in-validate:schema%d", r.Schema), fmt.Sprint(p))
+		mk("panic-in-validate:"+r.label(), fmt.Sprint(p))
 	case len(want) == 0 && len(errs) > 0:
-		mk(fmt.Sprintf("valid-tree-rejected:schema%d", r.Schema), fmt.Sprint(errs))
+		mk("valid-tree-rejected:"+r.label()+shapeKey(r), fmt.Sprint(errs))
 	case len(want) > 0 && len(errs) == 0:
-		mk(fmt.Sprintf("invalid-tree-accepted:schema%d:%s", r.Schema, kinds(want)), fmt.Sprintf("expected complaints %v", want))
+		mk("invalid-tree-accepted:"+r.label()+":"+kinds(want)+shapeKey(r), fmt.Sprintf("expected complaints %v", want))
 	case len(want) != len(errs):
-		mk(fmt.Sprintf("different-number-of-complaints:schema%d:%s", r.Schema, kinds(want)), fmt.Sprintf("expected %d %v, got %d %v", len(want), want, len(errs), errs))
+		mk("different-number-of-complaints:"+r.label()+":"+kinds(want)+shapeKey(r), fmt.Sprintf("expected %d %v, got %d %v", len(want), want, len(errs), errs))
 	}
 	// ---- defaults
 	var wantTree, gotTree, gotTwice, orig []string
@@ -146,13 +194,55 @@ func check(r rec) (vs []engine.Violation, nComplaints int, addsDefaults bool) {
 	}()
 	switch {
 	case p != nil:
-		mk(fmt.Sprintf("panic-in-adddefaults:schema%d", r.Schema), fmt.Sprint(p))
+		mk("panic-in-adddefaults:"+r.label(), fmt.Sprint(p))
 	case strings.Join(wantTree, "\n") != strings.Join(gotTree, "\n"):
-		mk(fmt.Sprintf("wrong-decoration:schema%d", r.Schema), fmt.Sprintf("expected %v got %v", wantTree, gotTree))
+		mk("wrong-decoration:"+r.label()+shapeKey(r), fmt.Sprintf("expected %v got %v", wantTree, gotTree))
 	case strings.Join(gotTree, "\n") != strings.Join(gotTwice, "\n"):
-		mk(fmt.Sprintf("decoration-not-idempotent:schema%d", r.Schema), fmt.Sprintf("once %v twice %v", gotTree, gotTwice))
+		mk("decoration-not-idempotent:"+r.label()+shapeKey(r), fmt.Sprintf("once %v twice %v", gotTree, gotTwice))
 	}
 	return
+}
+
+// shapeKey abstracts a generated schema for finding keys: the kinds and flags, no names.
+func shapeKey(r rec) string {
+	if r.Schema >= 0 {
+		return ""
+	}
+	var b strings.Builder
+	var w func(kids []*S)
+	w = func(kids []*S) {
+		for i, k := range kids {
+			if k.Kind == "leaf" && k.Name == "k" {
+				continue
+			}
+			if i > 0 {
+				b.WriteString(",")
+			}
+			b.WriteString(k.Kind)
+			if k.Presence {
+				b.WriteString("!p")
+			}
+			if k.Mandatory {
+				b.WriteString("!m")
+			}
+			if k.Default != "" {
+				b.WriteString("!d")
+			}
+			if k.Min > 0 || k.Max > 0 {
+				fmt.Fprintf(&b, "!%d..%d", k.Min, k.Max)
+			}
+			if len(k.Unique) > 0 {
+				fmt.Fprintf(&b, "!u%d", len(k.Unique))
+			}
+			if len(k.Kids) > 0 {
+				b.WriteString("{")
+				w(k.Kids)
+				b.WriteString("}")
+			}
+		}
+	}
+	w(r.Gen)
+	return ":" + b.String()
 }
 
 func kinds(want []string) string {
@@ -177,7 +267,53 @@ func kinds(want []string) string {
 	return strings.Join(ks, "+")
 }
 
+func runGenerated(c *engine.Ctx) {
+	sb, db := 3, 5
+	if !c.Quick() {
+		sb, db = 4, 6
+	}
+	all := genSchemas(sb)
+	c.Note(fmt.Sprintf("%d generated schemas of <= %d nodes, data trees of <= %d nodes", len(all), sb, db))
+	for gi, kids := range all {
+		if c.Expired() {
+			return
+		}
+		if !c.Owns(fmt.Sprintf("gen:%d", gi)) {
+			continue
+		}
+		if _, msg := compileKids(kids); msg != "" {
+			c.Add("generated_schemas_rejected_by_the_compiler", 1)
+			c.Outcome("generated-schema-rejected:" + strings.SplitN(strings.SplitN(msg, "\n", 2)[0], ": ", 3)[2])
+			continue
+		}
+		c.Add("schemas", 1)
+		trees := combos(dataNodes(kids), db)
+		for ti, t := range trees {
+			id := fmt.Sprintf("g%d:%d", gi, ti)
+			if !c.Case(id) {
+				continue
+			}
+			root := &D{Name: "root", Kids: t}
+			if twoCases(kids, root) {
+				c.Add("unspecified_skipped", 1)
+				continue
+			}
+			c.Add("states", 1)
+			c.Add("transitions", int64(root.count()))
+			vs, n, adds := check(rec{Schema: -1, Gen: kids, Data: root})
+			if root.count() > 2 || n > 0 || adds {
+				c.Nontrivial()
+			}
+			c.Outcome(fmt.Sprintf("complaints=%v:defaults=%v:viol=%v", n > 0, adds, len(vs) > 0))
+			for _, v := range vs {
+				c.Report(v)
+			}
+		}
+	}
+}
+
 func run(c *engine.Ctx) {
+	runGenerated(c)
 	budget := 7
 	if !c.Quick() {
 		budget = 9
@@ -200,7 +336,7 @@ func run(c *engine.Ctx) {
 			}
 			c.Add("states", 1)
 			c.Add("transitions", int64(root.count()))
-			vs, n, adds := check(rec{si, root})
+			vs, n, adds := check(rec{Schema: si, Data: root})
 			if root.count() > 2 || n > 0 || adds {
 				c.Nontrivial()
 			}
@@ -217,7 +353,7 @@ func run(c *engine.Ctx) {
 
 func replay(c *engine.Ctx, sub string, raw json.RawMessage) []engine.Violation {
 	var r rec
-	if json.Unmarshal(raw, &r) != nil || r.Data == nil || r.Schema < 0 || r.Schema >= len(schemas()) {
+	if json.Unmarshal(raw, &r) != nil || r.Data == nil || r.Schema >= len(schemas()) || (r.Schema < 0 && len(r.Gen) == 0) {
 		return []engine.Violation{{Key: "harness-bad-replay-file"}}
 	}
 	vs, _, _ := check(r)
